@@ -28,6 +28,10 @@ CLAIMED = {
  'C06': dict(
    text='C06_exact_base / C06_exact_compressed: for all 93 mnemonics the generated encoder accepts an operand tuple IF AND ONLY IF every operand is readable and inside '
         'the documented set (Spec/Legal.v: interval, scale, register class, non-zero, shamt<32, CSR 0..4095), for all integers; C06_no_truncation_*: what is accepted decodes to the operands named. '
+        'AT THE TEXT LEVEL (Proofs/Legal*.v, sub-agent; whole-pipeline model assemble_text = lexer model -> parser model -> 16 passes): C06_line_refused -- a line of the R-, I-, S-, U-type tables or a branch / jal with a literal offset '
+        '(any case, any register spelling, any closed immediate expression) whose operands are outside the documented set makes the one-line program fail with the assembler\'s own error AT THAT LINE, in both modes -- no result, no bytes; '
+        'C06_line_accepted(_with_compression) -- legal operands give the encoder\'s word; C06_line_refused_in_any_program -- a file containing such a line never assembles, whatever the other lines, constants and labels are (side condition: the register tokens of the line are not constants); '
+        'C06_c_line_* the same for explicitly written compressed instructions; C06_any_instruction_line_* for any line the parser turns into a non-atomic instruction (fence, imm(reg) form); C06_rules_fire_on_legal_operands_only (in-kernel sweep of the 29 rules). '
         'Falsifier: every bound +-, all residues, far-out values, all register numbers/names on real encoders and on one-line programs (AssemblerError, no output).',
    note='Trusted: as C01/C02; the documented operand sets are my reading of the manuals (tools/isa.py is an independent second transcription used by the falsifier). '
         'The ValueError->AssemblerError conversion of resolve_instructions is exercised by the falsifier text path and modelled in C15.',
